@@ -18,6 +18,8 @@ import LzmaVerif.Model.Bcj2
 import LzmaVerif.Model.LzDecoder
 import LzmaVerif.Model.EncWindow
 import LzmaVerif.Generated.TwinParams
+import Driver.MfHc4
+import Driver.MfBt4
 /-! Request handlers: each maps a parsed request to the canonical answer line. -/
 namespace Driver
 open LzmaVerif
@@ -378,6 +380,7 @@ def handleTwin (cmd : String) (a : Args) : String :=
 def handle (cmd : String) (a : Args) : String :=
   match cmd with
   | "twin.extend" | "twin.norm" => handleTwin cmd a
+  | "mf.trace" => if a.get? "kind" == some "bt4" then handleMfBt4 a else handleMfTraceHc4 a
   | "lzdec.run" => handleLzDec a
   | "encwin.trace" => handleEncWin a
   | "bcj2.enc" | "bcj2.dec" => handleBcj2 cmd a
